@@ -292,6 +292,27 @@ def step (st : State) (line : String) : State × String :=
       let split := ((arg? "split" rest).bind String.toNat?).getD 0
       (st, showPair (wPair main fb sup split))
     | _, _, _ => (st, "bad-op")
+  | "report" :: rest =>
+    let entries : Option (List (Bytes × List Bytes)) :=
+      match arg? "protos" rest with
+      | none => some []
+      | some v =>
+        if v = "-" || v.isEmpty then some []
+        else (v.splitOn ",").mapM fun e =>
+          match (e.splitOn ";").mapM unhx? with
+          | some (m :: fbs) => some (m, fbs)
+          | _ => none
+    match entries, argBytes "neg" rest with
+    | some installed, some neg =>
+      if !unambiguousB installed then (st, "bad-op")
+      else
+        let n := " n=" ++ toString (offeredNames installed).length
+        match reportInstalled installed neg with
+        | none => (st, "err:not-supported" ++ n)
+        | some (main, fb) =>
+          (st, "ok to=" ++ toString ((installed.map (·.1)).idxOf main) ++ " main=" ++ hx main ++ " fb=" ++
+            (match fb with | none => "none" | some f => hx f) ++ n)
+    | _, _ => (st, "bad-op")
   | "negotiate" :: rest =>
     match version? (arg? "ver" rest), argList "dialer" rest, argList "listener" rest, argBytes "dpay" rest,
       argBytes "lpay" rest with
@@ -302,6 +323,22 @@ def step (st : State) (line : String) : State × String :=
       (st, "d=" ++ d.result ++ " l=" ++ l.result ++ " dread=" ++ hx d.read ++ " lread=" ++ hx l.read ++
         " dw=" ++ hx dl.log ++ " lw=" ++ hx ld.log)
     | _, _, _, _, _ => (st, "bad-op")
+  | "refneg" :: rest =>
+    -- litep2p on side `role`, the reference implementation (same protocol) on the other: the model of
+    -- the pair, with the reference side's error collapsed to `err`
+    match version? (arg? "ver" rest), argList "dialer" rest, argList "listener" rest, argBytes "dpay" rest,
+      argBytes "lpay" rest, arg? "role" rest with
+    | some v, some ps, some ls, some dpay, some lpay, some role =>
+      if role ≠ "dial" ∧ role ≠ "listen" then (st, "bad-op")
+      else
+        let d : Side := { m := .dialer (Dialer.init v ps), pay := dpay }
+        let l : Side := { m := .listener (Listener.init ls), pay := lpay }
+        let (d, l, _, _) := runBoth (stepLimit ps + stepLimit ls + dpay.length) d l {} {}
+        let collapse (r : String) : String := if r.startsWith "err:" then "err" else r
+        let dr := if role = "dial" then d.result else collapse d.result
+        let lr := if role = "listen" then l.result else collapse l.result
+        (st, "d=" ++ dr ++ " l=" ++ lr ++ " dread=" ++ hx d.read ++ " lread=" ++ hx l.read)
+    | _, _, _, _, _, _ => (st, "bad-op")
   | role :: rest =>
     if role = "dial" ∨ role = "listen" then
       match version? (arg? "ver" rest), argList "protos" rest, argBytes "pay" rest, argBytes "peer" rest with
